@@ -172,6 +172,9 @@ func buildCorpus() []corpusEntry {
 	J("huge negative exponent", `1e-999999999`, num, str)
 	J("huge exponent in a string", `"1e999999999"`, num)
 	J("exponent overflowing int", `1e99999999999999999999`, num, str)
+	J("exponent 5678905 in a set", `{"k":[0.123e5678905]}`, obj("k", cty.Set(num)), obj("k", cty.List(num)))
+	J("exponent -5678905 in a set", `[1e-5678905]`, cty.Set(num), cty.List(num))
+	J("exponent 3000000 in a set inside a wrapper", `{"type":["set","number"],"value":[1e3000000]}`, dyn)
 	J("long mantissa", strings.Repeat("9", 5000)+"."+strings.Repeat("9", 5000), num, str)
 	J("Inf string as number", `"Inf"`, num)
 	J("-Inf string as number", `"-Inf"`, num)
@@ -212,6 +215,7 @@ func buildCorpus() []corpusEntry {
 	M("max uint64", hx("cf ffffffffffffffff"), num, str)
 	M("min int64", hx("d3 8000000000000000"), num)
 	M("number strings", hx("96 a3316535 a3496e66 a34e614e a0 a430783130 a5315f303030"), cty.List(num), tup(num, num, num, num, num, num))
+	M("exponent 5678905 string in a set", append(hx("91 a9"), []byte("1e5678905")...), cty.Set(num), cty.List(num))
 	M("F-21 empty array as tuple", []byte{0x90}, tup(str), tup(str, num), tup())
 	M("F-21 empty map as object", []byte{0x80}, obj("a", str), obj())
 	M("F-21 empty tuple inside a list", []byte{0x91, 0x90}, cty.List(tup(str)), cty.Set(tup(str)), cty.Map(tup(str)))
@@ -391,7 +395,8 @@ func runCorpus(e *executor, riskBatch bool) {
 		}
 		tc := &tcase{fam: ce.fam, class: "corpus", format: ce.format, input: ce.in, targets: ce.targets, origin: ce.name}
 		for k := range ce.targets {
-			tc.tnames = append(tc.tnames, "t"+string(rune('0'+k%10)))
+			_ = k
+			tc.tnames = append(tc.tnames, "corpus")
 		}
 		isRisky := ce.fam&famMP != 0 && risky(ce.in)
 		switch {
